@@ -59,6 +59,26 @@
                             a sticky d.err is returned as (0, d.err), nothing changes; otherwise non-empty leftover output
                             d.out is copied: (min(len p, len out), nil), p gets the bytes at its front, d.out loses them —
                             the first two cases of BxStream.bd_read.  No hypothesis.
+   - go_decoder_Read_exits  decoder.Read from a state with d.err = nil and d.out empty, over an ARBITRARY underlying reader
+                            (a state type U with a read function uread : nat -> U -> (bytes * option err) * U; Section
+                            Fill): nn is [gd_nn] (len(p)/ibl*obl, at least obl, at most len(d.buf)); the loop
+                            `for d.nbuf < obl && d.err == nil` makes exactly the reads [gd_fill] describes — one
+                            d.r.Read(d.buf[d.nbuf:nn]) of nn - d.nbuf bytes per turn, d.nbuf += n, d.err = err — and when it
+                            ends with an error other than io.EOF, or with io.EOF and d.nbuf = 0, Read returns (0, that error)
+                            at once, leaving d.err = the error, d.nbuf and d.r as the loop left them, p untouched.  (The
+                            other endings go on to the decoding part: NOT EXPRESSIBLE 2, 3.)  The object is
+                            [g_decU er out buf nbuf scratch u]; d.buf is the whole array and stays as it was (the bytes
+                            read cannot be stored, see below: on these paths no later code looks at them, d.err is sticky).
+                            Hypotheses: 0 < base256BlockLen (len(p)/ibl; Go would panic dividing by zero),
+                            baseXBlockLen <= len(d.buf) (newDecoder: len(d.buf) = 8192*ibl; otherwise d.buf[d.nbuf:nn] can be
+                            out of range), 13 <= F, and the reader encoding can be decoded ([as_U_g]).  When the loop
+                            needs more than F - 7 turns the evaluator is out of fuel (stated: OStuck "loop fuel").
+   - go_decoder_Read_exits_model   the same for the reader of model/BxStream.v (U = fr_state, uread = under_read: the raw
+                            source for a strict encoding, source + filteringReader state otherwise; [g_rd]) against bd_read:
+                            on those paths bd_read returns BdErr [] x with state (Some x, [], buffered characters, reader)
+                            and the Go code returns (0, x) leaving d.err = x, d.nbuf = the number of buffered characters and
+                            d.r = the model's reader ([gd_fill_model]: gd_fill is bd_fill).  Hypotheses as above with
+                            len(d.buf) = input_cap (newDecoder), bd_err st = None, bd_out st = [].
 
    NOT EXPRESSIBLE in model/GoLang2.v (reported, not worked around):
    1. f_basex_filteringReader_Read: `for i, b := range p[:n]`, translated to
@@ -69,6 +89,15 @@
       ((0, err) returned as is, fr_read's first case) and OStuck "range" in every other case.  Missing: SRange over
       VBytes (index, byte value).  (Also: CorruptInputError(r.nRead) is the composite literal ELit "CorruptInputError",
       which eval turns into a struct, not an error value; the name does not start with "Err".)
+      The statements AROUND the range header are tied, for every state:
+      - fr_body_step     one turn of the range body on (i, b): the step of BxStream.fr_filter — a foreign byte returns
+                         (0, CorruptInputError(r.nRead)) [as the struct just mentioned], otherwise r.nRead++, a skip byte
+                         `continue`s, an alphabet byte is stored at p[offset] (when i != offset) and offset++.
+                         Hypothesis: offset < len(p).
+      - fr_after_exec    after the range: `return offset, err` when something was kept or the reader failed, else the
+                         next r.wrapped.Read(p) (src_read; r.wrapped and p written back) — fr_read's last match.
+      - gfr_range_filter (no evaluator) the iteration [gfr_range] of fr_body_step over p[:n] IS fr_filter: same verdict,
+                         same nRead, and the kept characters are p[:offset] afterwards (the in-place compaction).
    2. f_basex_decoder_Read, the fill loop `n, d.err = d.r.Read(d.buf[d.nbuf:nn])`, translated to
         SAssignL [LVar "n"; LField (LVar "d") "err"]
                  [ECall "Reader.Read" [ESel (EVar "d") "r"; ESlice (ESel (EVar "d") "buf") (Some d.nbuf) (Some nn)]],
@@ -78,12 +107,39 @@
       is d.r; [decoder_Read_copy_places]: the copy has none).  So the bytes the underlying reader delivers can never
       appear in d.buf, which the rest of Read decodes, and the leftover input is never moved to the front.  Missing: a
       window place (LSlice l lo hi) in glval / expr_lval (SSliceCall has a VARIABLE target only), or reference values.
-      What is expressible is proved: the two paths that do not reach the loop (go_decoder_Read_nofill). *)
+   3. f_basex_decoder_Read again: `ret = copy(p, d.out)` (SAssign ["ret"] [ECall "copy" ..]) and the statement
+      `copy(d.buf[0:d.nbuf], ..)` (SExpr (ECall "copy" ..)) call the same extern "copy" on two byte strings.  exec2 hands
+      ALL results of a statement call to write_back2 (so with no place among the arguments the extern must return []),
+      and takes the first result of an assigned call as the value (so it must return at least the count):
+      [copy_sites_conflict].  The extern table is a function of the argument VALUES, which can coincide at the two sites,
+      so no table serves both calls on all inputs; every run of the decoding part reaches the second one.
+      What is expressible is proved: the two paths that do not reach the loop (go_decoder_Read_nofill), and the loop
+      with every exit that does not decode (go_decoder_Read_exits, _model).
+      THE DECODING PART (numBytesToDecode .. the final return) is tied SEGMENT BY SEGMENT, for every state of the object
+      — so for whatever d.buf holds —, the two segments being separated by the buffer shift, the one statement that
+      cannot be run (f_body = rd_pre ++ SFor rd_cond rd_loop_body :: rd_post, rd_post = 2 statements ++ rd_post2,
+      rd_post2 = rd_mid ++ rd_shift :: rd_fin; all by reflexivity on the generated term):
+      - rd_pre_exec / rd_loop / rd_post_exec   the prefix (nn), the fill loop turn by turn, the eof / error dispatch;
+      - rd_mid_exec      statements 10..15 = [gd_mid]: numBytesToDecode (all of d.nbuf at eof, else whole blocks),
+                         DecodedLen, then Decode into d.scratchbuf + copy into p + surplus kept in d.out when the output
+                         exceeds len(p), or Decode straight into p; d.err = the decode error; d.nbuf -= numBytesToDecode;
+                         the bytes delivered are observed in p (p is a variable: Decode / copy write it back).  Stuck
+                         ("call") exactly when Decode's destination is too short (the Go code would panic).
+                         Hypotheses: 0 < obl, d.nbuf <= len(d.buf), "n" declared (one turn of the loop has run).
+      - rd_shift_stuck   the shift statement is stuck ("call arity") under the extern table the rest needs.
+      - rd_fin_exec      the final returns = [gd_fin] ((0, io.EOF) when nothing was delivered without error into a non-empty p).
+      - gd_decode_model  (no evaluator) gd_mid followed by gd_fin IS BxStreamProofs.bd_after, the decoding part of bd_read
+                         (bd_read_eq), on an object whose d.buf[:d.nbuf] holds the characters the model has buffered:
+                         result, error, d.out, d.err, and the leftover input = d.buf[num:num+d.nbuf], i.e. d.buf[:d.nbuf]
+                         once the shift is performed.  Hypothesis: len(p) > 0 (the model is defined for non-empty p;
+                         for an empty p the Go code returns (0, nil), gd_fin says so).
+      So every statement of decoder.Read has its tie except the two writes into d.buf named in 2. *)
 
 From Coq Require Import List String NArith ZArith Bool Lia.
 From Coq.Strings Require Import Byte.
 From SP Require Import Bytes Consts Params Errors BaseX Encodings Armor Streams BxStream GoLang GoLang2 GoAst GoAstProofs GoAstProofs2 GoAstProofs3 GoAstProofs4c.
 From SP Require Import GoAstDearmor.
+From SP Require BxStreamProofs.
 Import ListNotations.
 Local Open Scope string_scope.
 
@@ -1051,6 +1107,15 @@ Proof.
 Qed.
 End Fr.
 
+Example test_fr_1 :
+  fst (run_func2 (ext_fr base62) f_basex_filteringReader_Read
+         [g_fr base62 (mkFr (mkSource [mkSeg [x41; x20] None] EOF) 0); VBytes [x00; x00; x00]]) = OStuck "range".
+Proof. vm_compute. reflexivity. Qed.
+Example test_fr_2 :
+  fst (run_func2 (ext_fr base62) f_basex_filteringReader_Read [g_fr base62 (mkFr (mkSource [] EOF) 7); VBytes [x00; x00; x00]])
+  = ORet [VInt 0; g_err EOF].
+Proof. vm_compute. reflexivity. Qed.
+
 (* ================= part 5 ================= *)
 (* the two statements of decoder.Read whose effect on d.buf the evaluator cannot express: the places an extern can
    write back to *)
@@ -1071,6 +1136,13 @@ Lemma decoder_Read_copy_places :
   | _ => ("", [LVar ""])
   end = ("copy", []).
 Proof. reflexivity. Qed.
+
+(* the two `copy` calls of decoder.Read need different result lists from the SAME extern: as a statement
+   (copy(d.buf[0:d.nbuf], ...): no argument is a place) the call may return nothing, as the right-hand side of
+   `ret := copy(p, d.out)` it must return the count *)
+Lemma copy_sites_conflict (X : externs) (rs : list gval) (e : env) :
+  write_back2 X [] rs e <> None -> lv_set_all X [LVar "ret"] (firstn 1 rs) e = None.
+Proof. destruct rs as [|v t]; [reflexivity|]. cbn [write_back2]. congruence. Qed.
 
 Section Rd.
 Variable en : encoding.
@@ -1135,3 +1207,812 @@ Proof.
       * rewrite Nat.min_r by lia. rewrite !firstn_all2 by lia. reflexivity.
 Qed.
 End Rd.
+
+(* ================= part 6 ================= *)
+(* ================= decoder.Read: the fill loop and the exits that follow it ================= *)
+Definition is_eof7 (x : err) : bool := match x with EOF => true | _ => false end.
+Lemma val_eqb_eof (x : err) : val_eqb 8 (g_err x) (VErr "io.EOF" []) = Some (is_eof7 x).
+Proof. destruct x; reflexivity. Qed.
+
+(* stepping with val_eqb kept folded, so that comparisons with an abstract error value can be rewritten by hypotheses *)
+Ltac ev_in8 h :=
+  eval cbv -[Z.eqb Z.ltb Z.leb Z.add Z.sub Z.mul Z.modulo Z.rem Z.quot Z.shiftr Z.shiftl Z.opp
+             Z.land Z.lor Z.lxor Z.lnot Z.of_nat Z.of_N Z.to_nat Z.to_N List.length nth_error
+             firstn skipn bytes_eqb' bytes_eqb Byte.to_N Byte.of_N Byte.eqb N.mul N.ltb N.eqb N.add N.leb Nat.eqb Nat.leb Nat.ltb
+             Nat.min Nat.sub Nat.add Nat.mul Nat.div Nat.modulo N.to_nat N.of_nat nth map repeat app
+             err_name err_args g_seg g_source as_source src_read read_result
+             all_bytes g_dentry g_sentry digit_of is_skip BaseX.ibl BaseX.obl BaseX.base enc_alphabet enc_skip
+             decode_block encode_block BaseX.decode BaseX.encode decoded_len encoded_len put_front
+             val_eqb for_loop2 range_loop2 exec2] in h.
+Ltac ev_term8 X h :=
+  lazymatch h with
+  | val_eqb _ _ _ => let h' := ev_in7 h in progress (change h with h'); cbv beta iota
+  | X ?fn ?args => let h' := ev_in8 h in progress (change h with h'); cbv beta iota
+  | _ =>
+    let p := eval pattern X in h in
+    lazymatch p with
+    | ?g _ => let g' := ev_in8 g in
+              let h' := eval cbv beta in (g' X) in
+              progress (change h with h'); cbv beta iota
+    end
+  end.
+Ltac norm_env8 h x f e ss k :=
+  let e' := ev_in8 e in
+  tryif constr_eq e e' then k e
+  else (change h with (exec2 x (S f) e' ss); k e').
+Ltac step8 X :=
+  lazymatch goal with
+  | |- ?G =>
+    let L := lazymatch G with (?L = _ -> _) => L | ?L = _ => L | _ => G end in
+    let h := head_scrut3 L in
+    lazymatch h with
+    | exec2 ?x (S ?f) ?e (SFor ?c ?b :: ?rest) =>
+      norm_env8 h x f e (SFor c b :: rest) ltac:(fun e' => rewrite exec2_for)
+    | exec2 ?x (S ?f) ?e ?ss =>
+      tryif first [is_var ss | is_const ss] then fail else
+      norm_env8 h x f e ss ltac:(fun e' => rewrite (exec2_S x f e' ss); cbv beta iota zeta); fix_lvars4; cbv beta iota
+    | for_loop2 _ _ _ _ _ _ _ => fail
+    | range_loop2 _ _ _ _ _ _ _ _ _ => fail
+    | _ => ev_term8 X h
+    end
+  end.
+Ltac steps8d X := repeat first [use_head_hyp4 | step8 X | lits1 | lits2 | lits3 | slice1 | arith4 | tab7 | dec_head].
+
+Definition rd_cond : gexpr :=
+  Eval cbv in match nth 7 (f_body f_basex_decoder_Read) SBreak with SFor c _ => c | _ => ENil end.
+Definition rd_pre : list gstmt := Eval cbv in firstn 7 (f_body f_basex_decoder_Read).
+Definition rd_post : list gstmt := Eval cbv in skipn 8 (f_body f_basex_decoder_Read).
+Definition rd_post2 : list gstmt := Eval cbv in skipn 10 (f_body f_basex_decoder_Read).
+
+Lemma quot_nat (a b : nat) : (0 < b)%nat -> Z.quot (Z.of_nat a) (Z.of_nat b) = Z.of_nat (a / b).
+Proof. intros H. rewrite Z.quot_div_nonneg by lia. symmetry. apply Nat2Z.inj_div. Qed.
+
+Section Fill.
+Variable en : encoding.
+Local Notation I := (N.to_nat (BaseX.ibl en)).
+Local Notation O := (N.to_nat (BaseX.obl en)).
+
+Lemma obl_pos7 : (0 < I)%nat -> (0 < O)%nat.
+Proof.
+  intros HI. unfold BaseX.obl, min_chars.
+  assert (Hf : exists f, N.to_nat (8 * BaseX.ibl en + 1) = S f) by (exists (N.to_nat (8 * BaseX.ibl en)); lia).
+  destruct Hf as [f ->]. cbn [min_chars_aux].
+  assert (Ht : (256 ^ BaseX.ibl en <=? 1)%N = false).
+  { apply N.leb_gt. assert (H1 : (256 ^ 1 <= 256 ^ BaseX.ibl en)%N) by (apply N.pow_le_mono_r; lia). rewrite N.pow_1_r in H1. lia. }
+  rewrite Ht. pose proof (mca_ge en f (0 + 1)%N (1 * base en)%N (256 ^ BaseX.ibl en)%N). lia.
+Qed.
+
+(* ---------- the underlying reader: an arbitrary state machine ---------- *)
+Variable U : Type.
+Variable uread : nat -> U -> (bytes * option err) * U.       (* Read(p) with len(p) = n *)
+Variable g_U : U -> gval.
+Variable as_U : gval -> option U.
+(* decoding an encoded reader gives a reader with the same behaviour (the same one, when the encoding is injective) *)
+Hypothesis as_U_g : forall u, exists u', as_U (g_U u) = Some u' /\
+  forall n, fst (uread n u') = fst (uread n u) /\ g_U (snd (uread n u')) = g_U (snd (uread n u)).
+
+(* d.r.Read(win): results n, err, then the new reader (written back into d.r).  The bytes are NOT a result: the
+   argument d.buf[d.nbuf:nn] is a slice expression, not a place.  d.enc.DecodedLen = decoded_len; d.enc.Decode(dst, src)
+   with the meaning go_Encoding_Decode proves (count, error, then enc and dst written back); copy = ext_copy *)
+Definition ext_rd : externs := fun fn args =>
+  if String.eqb fn "Reader.Read" then
+    match args with
+    | [rv; VBytes win] =>
+      match as_U rv with
+      | Some u => let r := uread (List.length win) u in
+                  Some [VInt (Z.of_nat (List.length (fst (fst r)))); g_err_opt (snd (fst r)); g_U (snd r)]
+      | None => None
+      end
+    | _ => None
+    end
+  else if String.eqb fn "Encoding.DecodedLen" then
+    match args with
+    | [_; VInt n] => if Z.ltb n 0 then None else Some [VInt (Z.of_N (decoded_len en (Z.to_N n)))]
+    | _ => None
+    end
+  else if String.eqb fn "Encoding.Decode" then          (* the meaning go_Encoding_Decode proves *)
+    match args with
+    | [encv; VBytes dst; VBytes src] =>
+      let r := decode en src in
+      if Nat.leb (List.length (fst r)) (List.length dst)
+      then Some [VInt (Z.of_nat (List.length (fst r))); g_bx_opt (snd r); encv; VBytes (put_front dst (fst r))]
+      else None
+    | _ => None
+    end
+  else ext_copy fn args.
+
+(* the fill loop at the Go level, turn by turn: the count of buffered characters, d.err and the reader; None = the
+   evaluator's loop fuel is used up *)
+Fixpoint gd_fill (fuel : nat) (nn nbuf : nat) (er : option err) (u : U) : option (nat * option err * U) :=
+  match fuel with
+  | 0%nat => None
+  | S f =>
+    if Nat.ltb nbuf O && (match er with None => true | Some _ => false end) then
+      let '((data, er'), u') := uread (nn - nbuf) u in gd_fill f nn (nbuf + List.length data) er' u'
+    else Some (nbuf, er, u)
+  end.
+
+Definition g_decU (er : option err) (out buf : bytes) (nbuf : nat) (scr : bytes) (u : U) : gval :=
+  g_dec en (mkGd er out buf nbuf scr (g_U u)).
+
+Definition envL (D : gval) (p : bytes) (nn : nat) (tl : env) : env :=
+  [("d", D); ("p", VBytes p); ("ibl", VInt (Z.of_nat I)); ("obl", VInt (Z.of_nat O)); ("nn", VInt (Z.of_nat nn))] ++ tl.
+Definition rd_tl (tl : env) : Prop := tl = [] \/ exists x, tl = [("n", x)].
+
+Lemma rd_body_step (f : nat) (out buf : bytes) (nbuf : nat) (scr : bytes) (u : U) (p : bytes) (nn : nat) (tl : env) :
+  rd_tl tl -> (nbuf <= nn)%nat -> (nn <= List.length buf)%nat ->
+  exec2 ext_rd (S (S (S (S (S f))))) (envL (g_decU None out buf nbuf scr u) p nn tl) rd_loop_body
+  = let '((data, er), u') := uread (nn - nbuf) u in
+    CNorm (envL (g_decU er out buf (nbuf + List.length data) scr u') p nn [("n", VInt (Z.of_nat (List.length data)))]).
+Proof.
+  intros Htl H1 H2. unfold rd_loop_body, envL, g_decU, g_dec, g_encoding.
+  cbn [gd_err gd_out gd_buf gd_nbuf gd_scratch gd_r g_err_opt].
+  destruct (as_U_g u) as (u0 & Hu0 & Hbeh). specialize (Hbeh (nn - nbuf)%nat).
+  destruct (uread (nn - nbuf) u) as [[data er] u'] eqn:Eu.
+  destruct (uread (nn - nbuf) u0) as [[data0 er0] u0'] eqn:Eu0.
+  cbn [fst snd] in Hbeh. destruct Hbeh as [Hb1 Hb2]. injection Hb1 as -> ->.
+  assert (Hwl : List.length (firstn (Z.to_nat (Z.of_nat nn - Z.of_nat nbuf)) (skipn (Z.to_nat (Z.of_nat nbuf)) buf)) = (nn - nbuf)%nat)
+    by (rewrite Zsub_nat, Nat2Z.id, firstn_length, skipn_length; lia).
+  destruct Htl as [->|(x & ->)]; cbn [app]; steps7d ext_rd;
+    rewrite Hwl, Eu0; cbv beta iota; rewrite Hb2, <- Nat2Z.inj_add; reflexivity.
+Qed.
+
+Definition F5 (f : nat) : nat := S (S (S (S (S f)))).
+
+Lemma rd_cond_eval (er : option err) (out buf : bytes) (nbuf : nat) (scr : bytes) (u : U) (p : bytes) (nn : nat) (tl : env) :
+  rd_tl tl ->
+  eval ext_rd 64 (envL (g_decU er out buf nbuf scr u) p nn tl) rd_cond
+  = Some (VBool (Nat.ltb nbuf O && (match er with None => true | Some _ => false end))).
+Proof.
+  intros Htl. unfold rd_cond, envL, g_decU, g_dec. cbn [gd_err gd_out gd_buf gd_nbuf gd_scratch gd_r].
+  destruct Htl as [->|(x & ->)]; cbn [app];
+  (match goal with |- ?L = _ => let l := ev_in7 L in change L with l end;
+   destruct (Nat.ltb nbuf O) eqn:E; [apply Nat.ltb_lt in E|apply Nat.ltb_ge in E];
+   [ replace (Z.of_nat nbuf <? Z.of_nat O)%Z with true by lia; destruct er; reflexivity
+   | replace (Z.of_nat nbuf <? Z.of_nat O)%Z with false by lia; reflexivity ]).
+Qed.
+
+Lemma rd_loop (f : nat) (out buf scr p : bytes) (nn : nat) (rest : list gstmt) :
+  (nn <= List.length buf)%nat -> (O <= nn)%nat ->
+  forall (k nbuf : nat) (er : option err) (u : U) (tl : env), rd_tl tl ->
+  match gd_fill k nn nbuf er u with
+  | None => for_loop2 ext_rd (F5 f) rd_cond rd_loop_body rest k (envL (g_decU er out buf nbuf scr u) p nn tl) = CStuck "loop fuel"
+  | Some (nbuf', er', u') =>
+    exists tl', rd_tl tl' /\
+    for_loop2 ext_rd (F5 f) rd_cond rd_loop_body rest k (envL (g_decU er out buf nbuf scr u) p nn tl)
+    = exec2 ext_rd (F5 f) (envL (g_decU er' out buf nbuf' scr u') p nn tl') rest
+  end.
+Proof.
+  intros H1 H2. induction k as [|k IH]; intros nbuf er u tl Htl; [reflexivity|].
+  cbn [gd_fill]. rewrite for_loop2_S, (rd_cond_eval er out buf nbuf scr u p nn tl Htl).
+  destruct (Nat.ltb nbuf O && match er with None => true | Some _ => false end) eqn:Ec.
+  - apply andb_prop in Ec. destruct Ec as [Ec1 Ec2]. destruct er as [x|]; [discriminate|].
+    apply Nat.ltb_lt in Ec1.
+    assert (Hb := rd_body_step f out buf nbuf scr u p nn tl Htl ltac:(lia) H1). fold (F5 f) in Hb.
+    rewrite Hb. clear Hb.
+    destruct (uread (nn - nbuf) u) as [[data er'] u']. cbv beta iota.
+    apply (IH (nbuf + List.length data)%nat er' u' [("n", VInt (Z.of_nat (List.length data)))]). right. eexists. reflexivity.
+  - exists tl. split; [exact Htl|reflexivity].
+Qed.
+
+(* nn: how far the buffer may be filled *)
+Definition gd_nn (buflen np : nat) : nat :=
+  let nn0 := (np / I * O)%nat in
+  let nn1 := if Nat.ltb nn0 O then O else nn0 in
+  if Nat.ltb buflen nn1 then buflen else nn1.
+
+Lemma rd_pre_exec (f : nat) (buf : bytes) (nbuf : nat) (scr : bytes) (u : U) (p : bytes) (rest : list gstmt) :
+  (0 < I)%nat ->
+  exec2 ext_rd (S (S (S (S (S (S (S (S (S f))))))))) [("d", g_decU None [] buf nbuf scr u); ("p", VBytes p)] (rd_pre ++ rest)
+  = exec2 ext_rd (S (S f)) (envL (g_decU None [] buf nbuf scr u) p (gd_nn (List.length buf) (List.length p)) []) rest.
+Proof.
+  intros HI. unfold rd_pre, envL, g_decU, g_dec, g_encoding, gd_nn. cbn [app gd_err gd_out gd_buf gd_nbuf gd_scratch gd_r g_err_opt].
+  rewrite <- !N_nat_Z. cbv zeta.
+  steps7d ext_rd. rewrite (quot_nat _ _ HI), <- Nat2Z.inj_mul.
+  destruct (Nat.ltb (List.length p / I * O) O) eqn:E1; [apply Nat.ltb_lt in E1|apply Nat.ltb_ge in E1].
+  - steps7d ext_rd.
+    destruct (Nat.ltb (List.length buf) O) eqn:E2; [apply Nat.ltb_lt in E2|apply Nat.ltb_ge in E2]; steps7d ext_rd; reflexivity.
+  - steps7d ext_rd.
+    destruct (Nat.ltb (List.length buf) (List.length p / I * O)) eqn:E2; [apply Nat.ltb_lt in E2|apply Nat.ltb_ge in E2];
+      steps7d ext_rd; reflexivity.
+Qed.
+
+(* after the loop: the exits taken before any decoding, or the entry of the decoding part with the flag eof *)
+Lemma rd_post_exec (f : nat) (er : option err) (out buf : bytes) (nbuf : nat) (scr : bytes) (u : U) (p : bytes) (nn : nat) (tl : env) :
+  rd_tl tl ->
+  exec2 ext_rd (S (S (S (S (S (S f)))))) (envL (g_decU er out buf nbuf scr u) p nn tl) rd_post
+  = match er with
+    | Some x =>
+      if is_eof7 x && negb (Nat.eqb nbuf 0)
+      then exec2 ext_rd (S (S (S (S f)))) (envL (g_decU None out buf nbuf scr u) p nn (tl ++ [("eof", VBool true)])) rd_post2
+      else CRet [VInt 0; g_err x] (envL (g_decU er out buf nbuf scr u) p nn (tl ++ [("eof", VBool false)]))
+    | None => exec2 ext_rd (S (S (S (S f)))) (envL (g_decU None out buf nbuf scr u) p nn (tl ++ [("eof", VBool false)])) rd_post2
+    end.
+Proof.
+  intros Htl. unfold rd_post, envL, g_decU, g_dec. cbn [gd_err gd_out gd_buf gd_nbuf gd_scratch gd_r].
+  fold rd_post2. generalize (g_encoding en). intros E.
+  destruct er as [x|]; cbn [g_err_opt].
+  - pose proof (val_eqb_eof x) as He. pose proof (g_err_not_nil x) as Hn. unfold g_err in *.
+    remember (err_name x) as nm eqn:Hnm. remember (err_args x) as ar eqn:Har. clear Hnm Har.
+    destruct (is_eof7 x) eqn:Ex; cbn [andb].
+    + destruct (Nat.eqb nbuf 0) eqn:E0; [apply Nat.eqb_eq in E0|apply Nat.eqb_neq in E0]; cbn [negb];
+        destruct Htl as [->|(y & ->)]; cbn [app]; steps8d ext_rd; reflexivity.
+    + destruct Htl as [->|(y & ->)]; cbn [app]; steps8d ext_rd; reflexivity.
+  - destruct Htl as [->|(y & ->)]; cbn [app]; steps8d ext_rd; reflexivity.
+Qed.
+
+Lemma gd_nn_bounds (buflen np : nat) : (O <= buflen)%nat -> (O <= gd_nn buflen np)%nat /\ (gd_nn buflen np <= buflen)%nat.
+Proof.
+  intros H. unfold gd_nn. cbv zeta.
+  destruct (Nat.ltb (np / I * O) O) eqn:E1; [apply Nat.ltb_lt in E1|apply Nat.ltb_ge in E1].
+  - destruct (Nat.ltb buflen O) eqn:E2; [apply Nat.ltb_lt in E2|apply Nat.ltb_ge in E2]; lia.
+  - destruct (Nat.ltb buflen (np / I * O)) eqn:E2; [apply Nat.ltb_lt in E2|apply Nat.ltb_ge in E2]; lia.
+Qed.
+
+Lemma rd_body_split : f_body f_basex_decoder_Read = rd_pre ++ SFor rd_cond rd_loop_body :: rd_post.
+Proof. reflexivity. Qed.
+
+(* (TARGET) *)
+(* decoder.Read from a state without sticky error and without leftover output: the fill loop makes the reads
+   gd_fill describes, and when it ends with an error that is not io.EOF, or with io.EOF and nothing buffered, Read returns
+   (0, that error) at once; d.err, d.nbuf and the reader are the loop's.  (The other endings go on to the decoding part,
+   which the evaluator cannot run faithfully: NOT EXPRESSIBLE 2 and 3.) *)
+Theorem go_decoder_Read_exits (F : nat) (buf : bytes) (nbuf : nat) (scr : bytes) (u : U) (p : bytes) :
+  (0 < I)%nat -> (O <= List.length buf)%nat -> (13 <= F)%nat ->
+  let r := run_func2_at (S F) ext_rd f_basex_decoder_Read [g_decU None [] buf nbuf scr u; VBytes p] in
+  match gd_fill (F - 7) (gd_nn (List.length buf) (List.length p)) nbuf None u with
+  | None => r = (OStuck "loop fuel", [])
+  | Some (nbuf', Some x, u') =>
+    if is_eof7 x && negb (Nat.eqb nbuf' 0) then True
+    else fst r = ORet [VInt 0; g_err x] /\
+         lookup "d" (snd r) = Some (g_decU (Some x) [] buf nbuf' scr u') /\
+         lookup "p" (snd r) = Some (VBytes p)
+  | Some (_, None, _) => True
+  end.
+Proof.
+  intros HI Hcap HF. cbv zeta.
+  assert (HF' : exists f, F = S (S (S (S (S (S (S (S (S (S (S (S (S f))))))))))))) by (exists (F - 13)%nat; lia).
+  destruct HF' as [f ->].
+  replace (S (S (S (S (S (S (S (S (S (S (S (S (S f)))))))))))) - 7)%nat with (F5 (S f)) by (unfold F5; lia).
+  destruct (gd_nn_bounds (List.length buf) (List.length p) Hcap) as [Hn1 Hn2].
+  set (nn := gd_nn (List.length buf) (List.length p)) in *.
+  pose proof (rd_loop (S f) [] buf scr p nn rd_post Hn2 Hn1 (F5 (S f)) nbuf None u [] (or_introl eq_refl)) as Hl.
+  unfold run_func2_at. cbn [f_params f_results f_basex_decoder_Read bind_params map app fst snd].
+  rewrite rd_body_split.
+  rewrite (rd_pre_exec (S (S (S (S (S f))))) buf nbuf scr u p _ HI). fold nn.
+  rewrite exec2_for. change (S (S (S (S (S (S f)))))) with (F5 (S f)).
+  destruct (gd_fill (F5 (S f)) nn nbuf None u) as [[[nbuf' er'] u']|].
+  - destruct Hl as (tl' & Htl' & Hl). rewrite Hl. unfold F5.
+    rewrite (rd_post_exec f er' [] buf nbuf' scr u' p nn tl' Htl').
+    destruct er' as [x|]; [|exact Logic.I].
+    destruct (is_eof7 x && negb (Nat.eqb nbuf' 0)); [exact Logic.I|].
+    cbn [fst snd]. unfold envL. cbn [lookup String.eqb Ascii.eqb Bool.eqb app]. auto.
+  - rewrite Hl. reflexivity.
+Qed.
+End Fill.
+
+(* ================= part 7 ================= *)
+(* ================= the instance: the reader of BxStream.v (a source, behind the filtering reader when the
+   encoding has skip characters) ================= *)
+Section Inst.
+Variable en : encoding.
+Local Notation I := (N.to_nat (BaseX.ibl en)).
+Local Notation O := (N.to_nat (BaseX.obl en)).
+
+Lemma fr_filter_len (l : bytes) : forall nread acc kept nread',
+  fr_filter en l nread acc = inl (kept, nread') -> (List.length kept <= List.length acc + List.length l)%nat.
+Proof.
+  induction l as [|b t IH]; intros nread acc kept nread' H; cbn [fr_filter] in H.
+  - injection H as <- _. rewrite rev_append_rev, app_nil_r, rev_length. cbn. lia.
+  - destruct (digit_of en b).
+    + apply IH in H. cbn [List.length] in *. lia.
+    + destruct (is_skip en b); [|discriminate]. apply IH in H. cbn [List.length] in *. lia.
+Qed.
+Lemma fr_read_len : forall (fuel n : nat) (st : fr_state), (List.length (fst (fst (fr_read en fuel n st))) <= n)%nat.
+Proof.
+  induction fuel as [|f IH]; intros n st; cbn [fr_read]; [cbn; lia|].
+  pose proof (src_read_len n (fr_src st)) as Hl.
+  destruct (src_read n (fr_src st)) as [[data er] s']. cbn [fst] in Hl.
+  destruct data as [|d0 data']; [cbn; lia|].
+  destruct (fr_filter en (d0 :: data') (fr_nread st) []) as [[kept nread']|off] eqn:Ef; [|cbn; lia].
+  apply fr_filter_len in Ef. cbn [List.length] in Ef.
+  destruct kept as [|k0 kept'].
+  - destruct er; [cbn; lia|]. apply IH.
+  - cbn [fst]. cbn [List.length] in *. lia.
+Qed.
+Lemma under_read_len (n : nat) (r : fr_state) : (List.length (fst (fst (under_read en n r))) <= n)%nat.
+Proof.
+  unfold under_read. destruct (enc_skip en).
+  - pose proof (src_read_len n (fr_src r)) as Hl. destruct (src_read n (fr_src r)) as [res s']. exact Hl.
+  - apply fr_read_len.
+Qed.
+
+(* the reader object: the raw source for a strict encoding, the filteringReader object otherwise (newDecoder) *)
+Definition g_rd (r : fr_state) : gval :=
+  match enc_skip en with [] => g_source (fr_src r) | _ :: _ => g_fr en r end.
+Definition as_fr (v : gval) : option fr_state :=
+  match v with
+  | VStruct [("wrapped", sv); ("enc", _); ("nRead", VInt z)] =>
+    match as_source sv with
+    | Some s => if Z.ltb z 0 then None else Some (mkFr s (Z.to_N z))
+    | None => None
+    end
+  | _ => None
+  end.
+Definition as_rd (v : gval) : option fr_state :=
+  match enc_skip en with
+  | [] => match as_source v with Some s => Some (mkFr s 0) | None => None end
+  | _ :: _ => as_fr v
+  end.
+Lemma as_fr_g (r : fr_state) : as_fr (g_fr en r) = Some r.
+Proof. destruct r as [s n]. unfold as_fr, g_fr. cbn [fr_src fr_nread]. rewrite as_source_g, N_ltb0, N2Z.id. reflexivity. Qed.
+Lemma as_rd_g (r : fr_state) : exists r', as_rd (g_rd r) = Some r' /\
+  forall n, fst (under_read en n r') = fst (under_read en n r) /\ g_rd (snd (under_read en n r')) = g_rd (snd (under_read en n r)).
+Proof.
+  unfold as_rd, g_rd, under_read. destruct (enc_skip en) as [|s0 sk].
+  - exists (mkFr (fr_src r) 0). rewrite as_source_g. split; [reflexivity|]. intros n. cbn [fr_src fr_nread].
+    destruct (src_read n (fr_src r)) as [res s']. split; reflexivity.
+  - exists r. rewrite as_fr_g. split; [reflexivity|]. intros n. split; reflexivity.
+Qed.
+
+Definition ext_bd : externs := ext_rd en fr_state (under_read en) g_rd as_rd.
+
+(* the Go-level fill loop is the model's bd_fill (as long as the loop fuel lasts) *)
+Lemma gd_fill_err (k nn nbuf : nat) (x : err) (r : fr_state) :
+  gd_fill en fr_state (under_read en) (S k) nn nbuf (Some x) r = Some (nbuf, Some x, r).
+Proof. cbn [gd_fill]. rewrite andb_false_r. reflexivity. Qed.
+Lemma gd_fill_model : forall (k nn : nat) (buf : bytes) (r : fr_state),
+  match gd_fill en fr_state (under_read en) k nn (List.length buf) None r with
+  | Some (n', er, r') => exists buf', bd_fill en k nn buf r = (buf', er, r') /\ List.length buf' = n'
+  | None => True
+  end.
+Proof.
+  induction k as [|k IH]; intros nn buf r; [exact Logic.I|].
+  cbn [gd_fill bd_fill]. rewrite andb_true_r.
+  destruct (Nat.ltb (List.length buf) O).
+  - destruct (under_read en (nn - List.length buf) r) as [[data er'] r'].
+    destruct er' as [x|].
+    + destruct k as [|k]; [exact Logic.I|]. rewrite gd_fill_err. exists (buf ++ data). split; [reflexivity|apply app_length].
+    + specialize (IH nn (buf ++ data) r'). rewrite app_length in IH. exact IH.
+  - exists buf. split; reflexivity.
+Qed.
+
+(* (TARGET) *)
+(* decoder.Read over the model's reader, against BxStream.bd_read, on the paths that leave Read right after the
+   fill loop.  The object is the one newDecoder builds (len(d.buf) = 8192 * base256BlockLen = input_cap) in a state
+   without sticky error or leftover output, d.buf[:d.nbuf] standing for the model's bd_buf (only its LENGTH matters on
+   these paths). *)
+Theorem go_decoder_Read_exits_model (F : nat) (st : bd_state) (buf scr p : bytes) :
+  bd_err st = None -> bd_out st = [] ->
+  (0 < I)%nat -> List.length buf = input_cap en -> (O <= input_cap en)%nat -> (13 <= F)%nat ->
+  let r := run_func2_at (S F) ext_bd f_basex_decoder_Read
+             [g_decU en fr_state g_rd None [] buf (List.length (bd_buf st)) scr (bd_r st); VBytes p] in
+  match gd_fill en fr_state (under_read en) (F - 7) (gd_nn en (List.length buf) (List.length p)) (List.length (bd_buf st)) None (bd_r st) with
+  | None => r = (OStuck "loop fuel", [])
+  | Some (n', Some x, _) =>
+    if is_eof7 x && negb (Nat.eqb n' 0) then True           (* io.EOF with characters buffered: Read goes on to decode them *)
+    else
+    let '(res, st') := bd_read en (F - 7) (List.length p) st in
+         res = BdErr [] x /\ bd_err st' = Some x /\ bd_out st' = [] /\
+         fst r = ORet [VInt 0; g_err x] /\
+         lookup "d" (snd r) = Some (g_decU en fr_state g_rd (bd_err st') [] buf (List.length (bd_buf st')) scr (bd_r st')) /\
+         lookup "p" (snd r) = Some (VBytes p)
+  | Some (_, None, _) => True
+  end.
+Proof.
+  intros He Ho HI Hlen Hcap HF. cbv zeta.
+  pose proof (go_decoder_Read_exits en fr_state (under_read en) g_rd as_rd as_rd_g F buf (List.length (bd_buf st)) scr (bd_r st) p HI
+                ltac:(rewrite Hlen; exact Hcap) HF) as Hgo. cbv zeta in Hgo.
+  pose proof (gd_fill_model (F - 7) (gd_nn en (List.length buf) (List.length p)) (bd_buf st) (bd_r st)) as Hm.
+  fold ext_bd in Hgo.
+  destruct (gd_fill en fr_state (under_read en) (F - 7) (gd_nn en (List.length buf) (List.length p)) (List.length (bd_buf st)) None (bd_r st))
+    as [[[n' er] r']|]; [|exact Hgo].
+  destruct er as [x|]; [|exact Logic.I].
+  destruct Hm as (buf' & Hm & Hn').
+  unfold bd_read. rewrite He, Ho. cbv zeta.
+  rewrite Hlen in Hm. unfold gd_nn in Hm. cbv zeta in Hm.
+  change (N.to_nat (BaseX.ibl en)) with I. change (N.to_nat (BaseX.obl en)) with O.
+  rewrite Hm.
+  destruct x; cbn [is_eof7 andb] in *;
+    try (destruct Hgo as (G1 & G2 & G3); cbn [bd_buf bd_r bd_err bd_out]; rewrite Hn'; repeat split; assumption).
+  (* io.EOF *)
+  destruct buf' as [|b0 buf''].
+  - cbn [List.length] in Hn'. subst n'. cbn [Nat.eqb negb] in *. destruct Hgo as (G1 & G2 & G3).
+    cbn [bd_buf bd_r bd_err bd_out List.length Nat.eqb negb]. repeat split; assumption.
+  - cbn [List.length] in Hn'. subst n'. cbn [Nat.eqb negb] in *. exact Logic.I.
+Qed.
+End Inst.
+
+(* tests of the decoder.Read statements on concrete inputs (a 64-byte d.buf; both sides computed) *)
+Definition test_obj (e : encoding) (er : option err) (nbuf : nat) (r : fr_state) : gval :=
+  g_decU e fr_state (g_rd e) er [] (repeat x2e 64) nbuf (repeat x2d 64) r.
+Definition test_run_rd (e : encoding) (nbuf : nat) (s : source) : outcome * option gval :=
+  let r := run_func2 (ext_bd e) f_basex_decoder_Read [test_obj e None nbuf (mkFr s 0); VBytes (repeat x00 10)] in
+  (fst r, lookup "d" (snd r)).
+Definition test_src : source := mkSource [mkSeg [x41; x42; x20; x43] None; mkSeg [x44] (Some ErrIO)] EOF.
+(* a strict encoding at the end of its source: (0, io.EOF), d.err = io.EOF *)
+Example test_rd_1 : test_run_rd base62_strict 0 (mkSource [] EOF)
+  = (ORet [VInt 0; g_err EOF], Some (test_obj base62_strict (Some EOF) 0 (mkFr (mkSource [] EOF) 0))).
+Proof. vm_compute. reflexivity. Qed.
+(* data, then data with an I/O error: two turns of the loop through the filtering reader (one blank dropped: 4 characters
+   buffered, 5 examined), (0, ErrIO); the model returns the same *)
+Example test_rd_2 : test_run_rd base62 0 test_src
+  = (ORet [VInt 0; g_err ErrIO], Some (test_obj base62 (Some ErrIO) 4 (mkFr (mkSource [] ErrIO) 5))).
+Proof. vm_compute. reflexivity. Qed.
+Example test_rd_2m : fst (bd_read base62 293 10 (mkBd None [] [] (mkFr test_src 0))) = BdErr [] ErrIO.
+Proof. vm_compute. reflexivity. Qed.
+(* a foreign character behind three buffered ones: CorruptInputError(1) from the filtering reader *)
+Example test_rd_3 : fst (test_run_rd base62 3 (mkSource [mkSeg [x41; x21] None] EOF)) = ORet [VInt 0; g_err (ErrBxCorrupt 1)].
+Proof. vm_compute. reflexivity. Qed.
+(* leftover output: two of three bytes fit *)
+Example test_rd_4 :
+  let r := run_func2 (ext_bd base62) f_basex_decoder_Read [g_dec base62 (mkGd None [x01; x02; x03] [] 0 [] VNil); VBytes [x00; x00]] in
+  (fst r, lookup "p" (snd r), lookup "d" (snd r))
+  = (ORet [VInt 2; VNil], Some (VBytes [x01; x02]), Some (g_dec base62 (mkGd None [x03] [] 0 [] VNil))).
+Proof. vm_compute. reflexivity. Qed.
+
+(* ================= part 8 ================= *)
+(* ================= decoder.Read: the decoding part, segment by segment ================= *)
+(* statements 10..15 (numBytesToDecode .. d.nbuf -= numBytesToDecode), the buffer shift (16), the final returns (17, 18) *)
+Definition rd_mid : list gstmt := Eval cbv in firstn 6 rd_post2.
+Definition rd_shift : gstmt := Eval cbv in nth 6 rd_post2 SBreak.
+Definition rd_fin : list gstmt := Eval cbv in skipn 7 rd_post2.
+Lemma rd_post2_split : rd_post2 = rd_mid ++ rd_shift :: rd_fin.
+Proof. reflexivity. Qed.
+
+Lemma Zsub0_nat (k : nat) : Z.to_nat (Z.of_nat k - 0) = k. Proof. lia. Qed.
+Lemma Z2N_nat (k : nat) : Z.to_N (Z.of_nat k) = N.of_nat k. Proof. lia. Qed.
+
+Lemma firstn_put_front (dst o : bytes) : firstn (List.length o) (put_front dst o) = o.
+Proof. unfold put_front. apply firstn_app_len. Qed.
+Lemma firstn_min_len (n : nat) (l : bytes) : firstn (Nat.min n (List.length l)) l = firstn n l.
+Proof.
+  destruct (Nat.le_gt_cases n (List.length l)) as [H|H].
+  - rewrite Nat.min_l by exact H. reflexivity.
+  - rewrite Nat.min_r by lia. rewrite !firstn_all2 by lia. reflexivity.
+Qed.
+Lemma copy_is_put_front (p dec : bytes) :
+  firstn (Nat.min (List.length p) (List.length dec)) dec ++ skipn (Nat.min (List.length p) (List.length dec)) p
+  = put_front p (firstn (List.length p) dec).
+Proof. unfold put_front. rewrite firstn_min_len, firstn_length. reflexivity. Qed.
+
+Lemma out_rest (n : nat) (dec : bytes) :
+  firstn (List.length dec - Nat.min n (List.length dec)) (skipn (Nat.min n (List.length dec)) dec) = skipn n dec.
+Proof. rewrite firstn_all2 by (rewrite skipn_length; lia). apply skipn_min. Qed.
+
+Section Mid.
+Variable en : encoding.
+Local Notation I := (N.to_nat (BaseX.ibl en)).
+Local Notation O := (N.to_nat (BaseX.obl en)).
+Variable U : Type.
+Variable uread : nat -> U -> (bytes * option err) * U.
+Variable g_U : U -> gval.
+Variable as_U : gval -> option U.
+Definition Xm : externs := ext_rd en U uread g_U as_U.
+
+(* what statements 10..15 do: (ret, the object, p); None = Decode's destination is too short (the Go code panics) *)
+Definition gd_mid (eof : bool) (o : gdec) (p : bytes) : option (nat * gdec * bytes) :=
+  let num := if eof then gd_nbuf o else (gd_nbuf o / O * O)%nat in
+  let nout := N.to_nat (decoded_len en (N.of_nat num)) in
+  let r := decode en (firstn num (gd_buf o)) in
+  let derr := option_map bx_to_err (snd r) in
+  if Nat.ltb (List.length p) nout then
+    (* too much for p: decoded into the scratch buffer, the surplus kept in d.out *)
+    if Nat.leb (List.length (fst r)) (List.length (gd_scratch o)) then
+      let ret := firstn (List.length p) (fst r) in
+      Some (List.length ret,
+            mkGd derr (skipn (List.length p) (fst r)) (gd_buf o) (gd_nbuf o - num) (put_front (gd_scratch o) (fst r)) (gd_r o),
+            put_front p ret)
+    else None
+  else
+    if Nat.leb (List.length (fst r)) (List.length p) then
+      Some (List.length (fst r), mkGd derr (gd_out o) (gd_buf o) (gd_nbuf o - num) (gd_scratch o) (gd_r o), put_front p (fst r))
+    else None.
+
+Definition envM (D : gval) (p : bytes) (nn : nat) (nv : gval) (eof : bool) (num : nat) (nout : N) (ret : nat) : env :=
+  [("d", D); ("p", VBytes p); ("ibl", VInt (Z.of_nat I)); ("obl", VInt (Z.of_nat O)); ("nn", VInt (Z.of_nat nn)); ("n", nv);
+   ("eof", VBool eof); ("numBytesToDecode", VInt (Z.of_nat num)); ("numBytesToOutput", VInt (Z.of_N nout));
+   ("ret", VInt (Z.of_nat ret))].
+
+Ltac steps9 X := repeat first [step7 X | use_head_hyp4 | lits1 | lits2 | lits3 | dec_head].
+
+Lemma rd_mid_exec (f : nat) (eof : bool) (out buf : bytes) (nbuf : nat) (scr : bytes) (R : gval) (p : bytes) (nn : nat) (x : gval)
+      (rest : list gstmt) :
+  (0 < O)%nat -> (nbuf <= List.length buf)%nat ->
+  let o := mkGd None out buf nbuf scr R in
+  let num := if eof then nbuf else (nbuf / O * O)%nat in
+  let nout := decoded_len en (N.of_nat num) in
+  exec2 Xm (S (S (S (S (S (S (S (S (S (S (S (S f))))))))))))
+        [("d", g_dec en o); ("p", VBytes p); ("ibl", VInt (Z.of_nat I)); ("obl", VInt (Z.of_nat O)); ("nn", VInt (Z.of_nat nn));
+         ("n", x); ("eof", VBool eof)] (rd_mid ++ rest)
+  = match gd_mid eof o p with
+    | Some (ret, o', p') =>
+      exec2 Xm (S (S (S (S (S (S f))))))
+            (envM (g_dec en o') p' nn
+                  (if Nat.ltb (List.length p) (N.to_nat nout) then VInt (Z.of_nat (List.length (fst (decode en (firstn num buf))))) else x)
+                  eof num nout ret) rest
+    | None => CStuck "call"
+    end.
+Proof.
+  intros HO Hnb. cbv zeta. unfold gd_mid, envM, g_dec. cbn [gd_err gd_out gd_buf gd_nbuf gd_scratch gd_r g_err_opt].
+  generalize (g_encoding en). intros E.
+  assert (Hdiv : (nbuf / O * O <= nbuf)%nat) by (rewrite Nat.mul_comm; apply Nat.mul_div_le; lia).
+  unfold rd_mid. cbn [app].
+  destruct eof.
+  - destruct (decode en (firstn nbuf buf)) as [dec derr] eqn:Ed. cbn [fst snd].
+    assert (Ed' : decode en (firstn (Z.to_nat (Z.of_nat nbuf - 0)) (skipn 0 buf)) = (dec, derr)) by (rewrite Zsub0_nat; exact Ed).
+    steps9 Xm. rewrite Z2N_nat.
+    destruct (Nat.ltb (List.length p) (N.to_nat (decoded_len en (N.of_nat nbuf)))) eqn:Enout;
+      [apply Nat.ltb_lt in Enout|apply Nat.ltb_ge in Enout].
+    + steps9 Xm. rewrite Ed'. cbv beta iota.
+      destruct (Nat.leb (List.length dec) (List.length scr)) eqn:Efit; [apply Nat.leb_le in Efit|apply Nat.leb_gt in Efit].
+      * pose proof (put_front_len scr dec Efit) as Hpl.
+        steps9 Xm. rewrite Zsub0_nat. change (skipn 0 (put_front scr dec)) with (put_front scr dec). rewrite firstn_put_front.
+        steps9 Xm. rewrite ?Zsub_nat, ?Nat2Z.id, ?out_rest, ?copy_is_put_front, ?firstn_length.
+        rewrite <- ?Nat2Z.inj_sub by lia. reflexivity.
+      * steps9 Xm. reflexivity.
+    + steps9 Xm. rewrite Ed'. cbv beta iota.
+      destruct (Nat.leb (List.length dec) (List.length p)) eqn:Efit; [apply Nat.leb_le in Efit|apply Nat.leb_gt in Efit].
+      * pose proof (put_front_len p dec Efit) as Hpl.
+        steps9 Xm. rewrite <- ?Nat2Z.inj_sub by lia. reflexivity.
+      * steps9 Xm. reflexivity.
+  - remember (nbuf / O * O)%nat as num eqn:Hnumdef.
+    destruct (decode en (firstn num buf)) as [dec derr] eqn:Ed. cbn [fst snd].
+    assert (Hq : (Z.quot (Z.of_nat nbuf) (Z.of_nat O) * Z.of_nat O)%Z = Z.of_nat num)
+      by (subst num; rewrite (quot_nat _ _ HO), <- Nat2Z.inj_mul; reflexivity).
+    assert (Ed' : decode en (firstn (Z.to_nat (Z.of_nat num - 0)) (skipn 0 buf)) = (dec, derr)) by (rewrite Zsub0_nat; exact Ed).
+    steps9 Xm. rewrite ?Hq, ?Z2N_nat. steps9 Xm. rewrite ?Hq, ?Z2N_nat.
+    destruct (Nat.ltb (List.length p) (N.to_nat (decoded_len en (N.of_nat num)))) eqn:Enout;
+      [apply Nat.ltb_lt in Enout|apply Nat.ltb_ge in Enout].
+    + steps9 Xm. rewrite Ed'. cbv beta iota.
+      destruct (Nat.leb (List.length dec) (List.length scr)) eqn:Efit; [apply Nat.leb_le in Efit|apply Nat.leb_gt in Efit].
+      * pose proof (put_front_len scr dec Efit) as Hpl.
+        steps9 Xm. rewrite Zsub0_nat. change (skipn 0 (put_front scr dec)) with (put_front scr dec). rewrite firstn_put_front.
+        steps9 Xm. rewrite ?Zsub_nat, ?Nat2Z.id, ?out_rest, ?copy_is_put_front, ?firstn_length.
+        rewrite <- ?Nat2Z.inj_sub by lia. reflexivity.
+      * steps9 Xm. reflexivity.
+    + steps9 Xm. rewrite Ed'. cbv beta iota.
+      destruct (Nat.leb (List.length dec) (List.length p)) eqn:Efit; [apply Nat.leb_le in Efit|apply Nat.leb_gt in Efit].
+      * pose proof (put_front_len p dec Efit) as Hpl.
+        steps9 Xm. rewrite <- ?Nat2Z.inj_sub by lia. reflexivity.
+      * steps9 Xm. reflexivity.
+Qed.
+
+(* the final returns: a Read that delivers nothing, without error, into a non-empty p reports io.EOF *)
+Definition gd_fin (ret : nat) (derr : option err) (np : nat) : nat * option err :=
+  if Nat.eqb ret 0 && (match derr with None => true | Some _ => false end) && negb (Nat.eqb np 0)
+  then (0%nat, Some EOF) else (ret, derr).
+
+Lemma rd_fin_exec (f : nat) (o' : gdec) (p' : bytes) (nn : nat) (nv : gval) (eof : bool) (num : nat) (nout : N) (ret : nat) :
+  exec2 Xm (S (S (S (S f)))) (envM (g_dec en o') p' nn nv eof num nout ret) rd_fin
+  = CRet [VInt (Z.of_nat (fst (gd_fin ret (gd_err o') (List.length p')))); g_err_opt (snd (gd_fin ret (gd_err o') (List.length p')))]
+         (envM (g_dec en o') p' nn nv eof num nout ret).
+Proof.
+  destruct o' as [er out buf nbuf scr R]. unfold rd_fin, envM, g_dec, gd_fin. cbn [gd_err gd_out gd_buf gd_nbuf gd_scratch gd_r].
+  generalize (g_encoding en). intros E.
+  destruct (Nat.eqb ret 0) eqn:E1; [apply Nat.eqb_eq in E1|apply Nat.eqb_neq in E1]; cbn [andb].
+  - destruct er as [e|]; cbn [g_err_opt andb].
+    + steps7d Xm. reflexivity.
+    + destruct (Nat.eqb (List.length p') 0) eqn:E2; [apply Nat.eqb_eq in E2|apply Nat.eqb_neq in E2]; cbn [negb];
+        steps7d Xm; reflexivity.
+  - steps7d Xm. reflexivity.
+Qed.
+
+(* the buffer shift between the two: under this extern table (copy returns the count and the destination, as the
+   assignment `ret = copy(p, d.out)` needs) the statement call is stuck; see NOT EXPRESSIBLE 2 and 3 *)
+Lemma rd_shift_stuck (f : nat) (o' : gdec) (p' : bytes) (nn : nat) (nv : gval) (eof : bool) (num : nat) (nout : N) (ret : nat)
+      (rest : list gstmt) :
+  (num + gd_nbuf o' <= List.length (gd_buf o'))%nat ->
+  exec2 Xm (S (S f)) (envM (g_dec en o') p' nn nv eof num nout ret) (rd_shift :: rest) = CStuck "call arity".
+Proof.
+  intros H. destruct o' as [er out buf nbuf scr R]. unfold rd_shift, envM, g_dec. cbn [gd_err gd_out gd_buf gd_nbuf gd_scratch gd_r] in *.
+  generalize (g_encoding en). intros E. steps7d Xm. reflexivity.
+Qed.
+End Mid.
+
+(* ---------- the decoding part against the model: gd_mid; (the buffer shift); gd_fin is BxStream's `after` ---------- *)
+Section MidModel.
+Variable en : encoding.
+Local Notation O := (N.to_nat (BaseX.obl en)).
+
+Definition res_of (ne : nat * option err) (p' : bytes) : bd_result :=
+  match snd ne with None => BdData (firstn (fst ne) p') | Some x => BdErr (firstn (fst ne) p') x end.
+
+Lemma bd_emit_fin (retb out rest p : bytes) (r' : fr_state) (derr' : option err) :
+  (List.length retb <= List.length p)%nat -> (0 < List.length p)%nat ->
+  BxStreamProofs.bd_emit retb out rest r' derr'
+  = (res_of (gd_fin (List.length retb) derr' (List.length (put_front p retb))) (put_front p retb), mkBd derr' out rest r').
+Proof.
+  intros H1 H2. rewrite (put_front_len p retb H1). unfold gd_fin, res_of, BxStreamProofs.bd_emit.
+  replace (Nat.eqb (List.length p) 0) with false by (symmetry; apply Nat.eqb_neq; lia).
+  destruct retb as [|b0 t]; destruct derr' as [x|]; cbn [List.length Nat.eqb andb negb fst snd firstn]; try reflexivity.
+  - unfold put_front. cbn [List.length app skipn firstn]. rewrite firstn_app_len. reflexivity.
+  - unfold put_front. cbn [List.length app skipn firstn]. rewrite firstn_app_len. reflexivity.
+Qed.
+
+(* the object after the pending shift copy(d.buf[0:d.nbuf], d.buf[num:num+d.nbuf]) holds [firstn nbuf' (skipn num buf)] in
+   d.buf[:d.nbuf]: the model's leftover input *)
+Theorem gd_decode_model (eof : bool) (buf : bytes) (nbuf : nat) (scr : bytes) (R : gval) (r' : fr_state) (p : bytes) :
+  (nbuf <= List.length buf)%nat -> (0 < List.length p)%nat ->
+  let o := mkGd None [] buf nbuf scr R in
+  let num := if eof then nbuf else (nbuf / O * O)%nat in
+  match gd_mid en eof o p with
+  | Some (ret, o', p') =>
+    BxStreamProofs.bd_after en (List.length p) (firstn nbuf buf) r' eof
+    = (res_of (gd_fin ret (gd_err o') (List.length p')) p',
+       mkBd (gd_err o') (gd_out o') (firstn (gd_nbuf o') (skipn num buf)) r')
+  | None => True
+  end.
+Proof.
+  intros Hnb Hp. cbv zeta. unfold gd_mid, BxStreamProofs.bd_after. cbn [gd_err gd_out gd_buf gd_nbuf gd_scratch gd_r]. cbv zeta.
+  assert (Hl : List.length (firstn nbuf buf) = nbuf) by (rewrite firstn_length; lia).
+  rewrite Hl.
+  set (num := if eof then nbuf else (nbuf / O * O)%nat).
+  assert (Hnum : (num <= nbuf)%nat).
+  { unfold num. destruct eof; [lia|]. destruct (Nat.eq_dec O 0) as [H0|H0]; [rewrite H0; cbn; lia|].
+    rewrite Nat.mul_comm. apply Nat.mul_div_le. exact H0. }
+  assert (Hf : firstn num (firstn nbuf buf) = firstn num buf) by (rewrite firstn_firstn; f_equal; lia).
+  assert (Hr : skipn num (firstn nbuf buf) = firstn (nbuf - num) (skipn num buf)) by apply skipn_firstn_comm.
+  rewrite Hf, Hr.
+  destruct (decode en (firstn num buf)) as [dec derr]. cbn [fst snd].
+  change (match derr with Some b => Some (bx_to_err b) | None => None end) with (option_map bx_to_err derr).
+  destruct (Nat.ltb (List.length p) (N.to_nat (decoded_len en (N.of_nat num)))).
+  - destruct (Nat.leb (List.length dec) (List.length scr)); [|exact Logic.I].
+    cbn [gd_err gd_out gd_nbuf].
+    apply bd_emit_fin; [rewrite firstn_length; lia|exact Hp].
+  - destruct (Nat.leb (List.length dec) (List.length p)) eqn:Ef; [|exact Logic.I]. apply Nat.leb_le in Ef.
+    cbn [gd_err gd_out gd_nbuf]. apply bd_emit_fin; assumption.
+Qed.
+End MidModel.
+
+(* ================= part 9 ================= *)
+(* ================= filteringReader.Read: the statements around the range header ================= *)
+Definition fr_for_body : list gstmt :=
+  Eval cbv in match nth 1 (f_body f_basex_filteringReader_Read) SBreak with SFor _ b => b | _ => [] end.
+Definition fr_rbody : list gstmt :=
+  Eval cbv in match nth 1 fr_for_body SBreak with SRange _ _ _ b => b | _ => [] end.
+Definition fr_after : list gstmt := Eval cbv in skipn 2 fr_for_body.
+
+Lemma byte_mod_id (b : byte) :
+  match Byte.of_N (Z.to_N (Z.of_N (Byte.to_N b) mod 256)) with Some c => c | None => x00 end = b.
+Proof. destruct b; reflexivity. Qed.
+
+Section FrSeg.
+Variable en : encoding.
+
+Definition set_nth (k : nat) (b : byte) (p : bytes) : bytes := firstn k p ++ b :: skipn (S k) p.
+
+Definition envR (st : fr_state) (p : bytes) (n : Z) (ev : gval) (off i : nat) (b : byte) (tl : env) : env :=
+  [("r", g_fr en st); ("p", VBytes p); ("n", VInt n); ("err", ev); ("offset", VInt (Z.of_nat off));
+   ("i", VInt (Z.of_nat i)); ("b", g_byte b)] ++ tl.
+Definition fr_tl (tl : env) : Prop := tl = [] \/ exists x, tl = [("typ", x)].
+
+(* one turn of `for i, b := range p[:n]` on the byte b at index i, with offset bytes kept so far: the step of
+   BxStream.fr_filter.  CorruptInputError(r.nRead) is the value the evaluator gives the composite literal: a struct. *)
+Lemma fr_body_step (f : nat) (st : fr_state) (p : bytes) (n : Z) (ev : gval) (off i : nat) (b : byte) (tl : env) :
+  fr_tl tl -> (off < List.length p)%nat ->
+  exec2 (ext_fr en) (S (S (S (S (S (S (S (S f)))))))) (envR st p n ev off i b tl) fr_rbody
+  = match digit_of en b with
+    | Some _ => CNorm (envR (mkFr (fr_src st) (fr_nread st + 1)) (if Nat.eqb i off then p else set_nth off b p) n ev (off + 1) i b
+                            [("typ", VInt 0)])
+    | None =>
+      if is_skip en b then CCont (envR (mkFr (fr_src st) (fr_nread st + 1)) p n ev off i b [("typ", VInt 1)])
+      else CRet [VInt 0; VStruct [("0", VInt (Z.of_N (fr_nread st)))]] (envR st p n ev off i b [("typ", VInt 2)])
+    end.
+Proof.
+  intros Htl Hoff. destruct st as [src nread]. unfold fr_rbody, envR, g_fr, g_byte, set_nth. cbn [fr_src fr_nread].
+  generalize (g_encoding en). intros E.
+  assert (Hb : Byte.of_N (Z.to_N (Z.of_N (Byte.to_N b))) = Some b) by (rewrite N2Z.id; apply Byte.of_to_N).
+  pose proof (byte_mod_id b) as Hm.
+  unfold byte_type in *.
+  destruct (digit_of en b) as [d|] eqn:Ed.
+  - destruct (Nat.eqb i off) eqn:Ei; [apply Nat.eqb_eq in Ei|apply Nat.eqb_neq in Ei];
+      destruct Htl as [->|(x & ->)]; cbn [app]; steps7d (ext_fr en); unfold byte_type; rewrite ?Ed; steps7d (ext_fr en);
+      rewrite ?Z.mod_mod by lia; rewrite ?Hm, ?Nat2Z.id, ?Nat2Z.inj_add, ?N2Z.inj_add; reflexivity.
+  - destruct (is_skip en b) eqn:Es;
+      destruct Htl as [->|(x & ->)]; cbn [app]; steps7d (ext_fr en); unfold byte_type; rewrite ?Ed, ?Es; steps7d (ext_fr en);
+      rewrite ?N2Z.inj_add; reflexivity.
+Qed.
+
+(* after the range loop: return what was kept (or the reader's error), or read again when everything was skipped *)
+Definition envA (st : fr_state) (p : bytes) (n : Z) (ev : gval) (off : nat) (xi xb xt : gval) : env :=
+  [("r", g_fr en st); ("p", VBytes p); ("n", VInt n); ("err", ev); ("offset", VInt (Z.of_nat off));
+   ("i", xi); ("b", xb); ("typ", xt)].
+Lemma fr_after_exec (f : nat) (st : fr_state) (p : bytes) (n : Z) (er : option err) (off : nat) (xi xb xt : gval) :
+  exec2 (ext_fr en) (S (S (S (S (S f))))) (envA st p n (g_err_opt er) off xi xb xt) fr_after
+  = if Nat.ltb 0 off || (match er with Some _ => true | None => false end)
+    then CRet [VInt (Z.of_nat off); g_err_opt er] (envA st p n (g_err_opt er) off xi xb xt)
+    else let '((data, er'), s') := src_read (List.length p) (fr_src st) in
+         CNorm (envA (mkFr s' (fr_nread st)) (data ++ skipn (List.length data) p) (Z.of_nat (List.length data)) (g_err_opt er') off xi xb xt).
+Proof.
+  destruct st as [src nread]. unfold fr_after, envA, g_fr. cbn [fr_src fr_nread].
+  generalize (g_encoding en). intros E.
+  destruct (Nat.ltb 0 off) eqn:E0; [apply Nat.ltb_lt in E0|apply Nat.ltb_ge in E0]; cbn [orb].
+  - steps7d (ext_fr en). reflexivity.
+  - destruct er as [e|]; cbn [g_err_opt].
+    + steps7d (ext_fr en). reflexivity.
+    + destruct (src_read (List.length p) src) as [[data er'] s'] eqn:Esr.
+      steps7d (ext_fr en). rewrite as_source_g, Esr. unfold read_result. cbn [fst snd]. steps7d (ext_fr en). reflexivity.
+Qed.
+End FrSeg.
+
+(* ---------- the range loop as the iteration of fr_body_step, against the model's fr_filter ---------- *)
+Section FrRange.
+Variable en : encoding.
+
+Fixpoint gfr_range (l : bytes) (i off : nat) (p : bytes) (nread : N) : (bytes * nat * N) + N :=
+  match l with
+  | [] => inl (p, off, nread)
+  | b :: t =>
+    match digit_of en b with
+    | Some _ => gfr_range t (S i) (off + 1) (if Nat.eqb i off then p else set_nth off b p) (nread + 1)
+    | None => if is_skip en b then gfr_range t (S i) off p (nread + 1) else inr nread
+    end
+  end.
+
+Lemma set_nth_len (k : nat) (b : byte) (p : bytes) : (k < List.length p)%nat -> List.length (set_nth k b p) = List.length p.
+Proof. intros H. unfold set_nth. rewrite app_length, firstn_length. cbn [List.length]. rewrite skipn_length. lia. Qed.
+Lemma set_nth_firstn (k : nat) (b : byte) (p : bytes) : (k < List.length p)%nat ->
+  firstn (k + 1) (set_nth k b p) = firstn k p ++ [b].
+Proof.
+  intros H. unfold set_nth.
+  assert (Hl : List.length (firstn k p) = k) by (rewrite firstn_length; lia).
+  rewrite firstn_app, Hl, firstn_all2 by lia.
+  replace (k + 1 - k)%nat with 1%nat by lia. reflexivity.
+Qed.
+Lemma set_nth_skipn (k j : nat) (b : byte) (p : bytes) : (k < j)%nat -> (k < List.length p)%nat ->
+  skipn j (set_nth k b p) = skipn j p.
+Proof.
+  intros H1 H2. unfold set_nth.
+  assert (Hl : List.length (firstn k p) = k) by (rewrite firstn_length; lia).
+  rewrite skipn_app, Hl, skipn_all2 by lia. cbn [app].
+  replace (j - k)%nat with (S (j - k - 1)) by lia. rewrite skipn_cons.
+  rewrite skipn_skipn7. f_equal. lia.
+Qed.
+Lemma firstn_S_skipn (k : nat) (b : byte) (r p : bytes) : skipn k p = b :: r -> firstn (k + 1) p = firstn k p ++ [b].
+Proof.
+  intros H. rewrite <- (firstn_skipn k p) at 1. rewrite H.
+  assert (Hk : (k <= List.length p)%nat).
+  { destruct (Nat.le_gt_cases k (List.length p)) as [Hc|Hc]; [exact Hc|]. rewrite skipn_all2 in H by lia. discriminate. }
+  assert (Hl : List.length (firstn k p) = k) by (rewrite firstn_length; lia).
+  rewrite firstn_app, Hl, firstn_all2 by lia.
+  replace (k + 1 - k)%nat with 1%nat by lia. reflexivity.
+Qed.
+
+Lemma gfr_range_filter : forall (l : bytes) (i off : nat) (p : bytes) (nread : N) (acc post : bytes),
+  (off <= i)%nat -> (i <= List.length p)%nat -> skipn i p = l ++ post -> firstn off p = rev acc ->
+  match fr_filter en l nread acc with
+  | inl (kept, nread') =>
+    exists p', gfr_range l i off p nread = inl (p', List.length kept, nread') /\
+               firstn (List.length kept) p' = kept /\ List.length p' = List.length p
+  | inr x => gfr_range l i off p nread = inr x
+  end.
+Proof.
+  induction l as [|b t IH]; intros i off p nread acc post Hoi Hip Hsk Hfo.
+  - cbn [fr_filter gfr_range]. rewrite rev_append_rev, app_nil_r.
+    assert (Hl : List.length (rev acc) = off) by (rewrite <- Hfo, firstn_length; lia).
+    exists p. rewrite Hl. auto.
+  - cbn [fr_filter gfr_range]. cbn [app] in Hsk.
+    assert (Hi : (i < List.length p)%nat).
+    { destruct (Nat.le_gt_cases (List.length p) i) as [Hc|Hc]; [|exact Hc]. rewrite skipn_all2 in Hsk by lia. discriminate. }
+    assert (Hsk' : skipn (S i) p = t ++ post).
+    { replace (S i) with (i + 1)%nat by lia. rewrite <- skipn_skipn7, Hsk. reflexivity. }
+    destruct (digit_of en b) as [d|].
+    + set (p1 := if Nat.eqb i off then p else set_nth off b p).
+      assert (Hl1 : List.length p1 = List.length p).
+      { unfold p1. destruct (Nat.eqb i off); [reflexivity|]. apply set_nth_len. lia. }
+      specialize (IH (S i) (off + 1)%nat p1 (nread + 1)%N (b :: acc) post).
+      assert (H1 : skipn (S i) p1 = t ++ post).
+      { unfold p1. destruct (Nat.eqb i off) eqn:Ei; [exact Hsk'|]. apply Nat.eqb_neq in Ei.
+        rewrite set_nth_skipn by lia. exact Hsk'. }
+      assert (H2 : firstn (off + 1) p1 = rev (b :: acc)).
+      { cbn [rev]. rewrite <- Hfo. unfold p1. destruct (Nat.eqb i off) eqn:Ei.
+        - apply Nat.eqb_eq in Ei. subst i. eapply firstn_S_skipn. exact Hsk.
+        - apply set_nth_firstn. lia. }
+      specialize (IH ltac:(lia) ltac:(lia) H1 H2).
+      destruct (fr_filter en t (nread + 1) (b :: acc)) as [[kept nread']|x]; [|exact IH].
+      destruct IH as (p' & G1 & G2 & G3). exists p'. rewrite G3, Hl1. auto.
+    + destruct (is_skip en b); [|reflexivity].
+      specialize (IH (S i) off p (nread + 1)%N acc post ltac:(lia) ltac:(lia) Hsk' Hfo). exact IH.
+Qed.
+End FrRange.
